@@ -31,6 +31,9 @@ type Options struct {
 	PropID string
 	// AfterStep runs after every step (extra invariants); may call t.Fatalf.
 	AfterStep func(m *Machine, op string)
+	// AfterRefusal runs right after a request that met a storage fault was refused, before anything else is asked of the
+	// mint (in particular before restore hands out whatever the refused request left behind).
+	AfterRefusal func(m *Machine, op string)
 	// MaxProofs bounds the client's holdings (keeps histories fast).
 	MaxProofs int
 }
@@ -541,6 +544,9 @@ func (m *Machine) opMintFault(t *rapid.T) bool {
 		return true
 	}
 	m.Count["mint_failed_on_storage_fault"]++
+	if m.Opt.AfterRefusal != nil {
+		m.Opt.AfterRefusal(m, "mint_fault")
+	}
 	m.forceProbe = true
 	m.probeRefused(t, "mint")
 	outs2 := w.MakeOutputs(world.Split(amount), w.ActiveID)
@@ -608,6 +614,9 @@ func (m *Machine) opSwapFault(t *rapid.T) bool {
 		return true
 	}
 	w.ResyncProofStates(inputs, nil)
+	if m.Opt.AfterRefusal != nil {
+		m.Opt.AfterRefusal(m, "swap_fault")
+	}
 	m.forceProbe = true
 	m.probeRefused(t, "swap")
 	for _, in := range inputs {
